@@ -117,7 +117,7 @@ class RecordingLDA(ClassifierMixin, BaseEstimator):
             self.noise_scale_ = float(np.std(F @ w + b)) or 1.0
         return self
 
-    def decision_function(self, X):
+    def _decision(self, X, transform=None):
         F, tags = self._split(X)
         mode = getattr(self, "mode_", self.mode if isinstance(self.mode, str) else "good")
         out = F @ self.coef_.ravel() + self.intercept_[0]
@@ -136,6 +136,8 @@ class RecordingLDA(ClassifierMixin, BaseEstimator):
             noisy = out + 1.5 * self.noise_scale_ * _hash_noise(tags, self.noise_seed) * 1.7320508
             memo = self.memo_
             out = np.array([memo.get(int(t), float(v)) for t, v in zip(tags, noisy)])
+        if transform is not None:
+            out = transform(out)
         if self.record and tags is not None:
             phase, fold = _phase_and_fold()
             if not hasattr(self, "pred_log_"):
@@ -143,8 +145,25 @@ class RecordingLDA(ClassifierMixin, BaseEstimator):
             self.pred_log_.append({"phase": phase, "fold": fold, "tags": tags.tolist(), "out": np.asarray(out, float).tolist()})
         return out
 
+    def decision_function(self, X):
+        return self._decision(X)
+
     def predict(self, X):
-        return (self.decision_function(X) > 0).astype(int)
+        return (self._decision(X) > 0).astype(int)
+
+
+class RecordingProbaLDA(RecordingLDA):
+    """Same learner, but exposes only predict_proba (two columns), like tree ensembles or neural nets:
+    mokapot then takes column 1 and does not calibrate between folds."""
+
+    @property
+    def decision_function(self):  # hasattr(...) is False
+        raise AttributeError("decision_function")
+
+    def predict_proba(self, X):
+        # the recorded raw output is the probability mokapot is meant to use (column 1)
+        p = self._decision(X, transform=lambda z: 1.0 / (1.0 + np.exp(-np.clip(z / 4.0, -30, 30))))
+        return np.vstack([1.0 - p, p]).T
 
 
 def _hash_noise(tags, seed):
@@ -168,6 +187,9 @@ def make_model(kind, tag_idx, train_fdr, max_iter, seed, override=False, **kw):
         return mokapot.Model(est, scaler="as-is", train_fdr=train_fdr, max_iter=max_iter, override=override, rng=seed)
     if kind == "olda":
         est = RecordingLDA(tag_idx=tag_idx, order_frac=0.8, **kw)
+        return mokapot.Model(est, scaler="as-is", train_fdr=train_fdr, max_iter=max_iter, override=override, rng=seed)
+    if kind == "plda":
+        est = RecordingProbaLDA(tag_idx=tag_idx, **kw)
         return mokapot.Model(est, scaler="as-is", train_fdr=train_fdr, max_iter=max_iter, override=override, rng=seed)
     if kind == "svc":
         from sklearn.svm import LinearSVC
